@@ -3,6 +3,8 @@ snapshots."""
 import importlib
 import itertools
 
+import copy
+
 import numpy as np
 
 from . import core, probe
@@ -141,10 +143,25 @@ class Gram(probe.Contract):
 class Hocur(probe.Contract):
     api = 'transform.hocur'
 
+    def pre(self, args, kwargs):
+        from .contracts_api import snapshot_plain
+        v = parse(['x', 'basis_list', 'ranks', 'repeats', 'multiplier', 'progress', 'string'], {'repeats': 1, 'multiplier': 10}, args, kwargs)
+        return {'plain': snapshot_plain(args, kwargs), 'ranks': copy.deepcopy(v.get('ranks')), 'x': np.array(v['x'], copy=True)}
+
+    def exc(self, st, e, args, kwargs):
+        if st is not None:
+            from .contracts_api import check_plain
+            check_plain(self.api, st['plain'], raised=True)
+
     def post(self, st, res, args, kwargs):
         c = core.ctx()
         check_returned(self.api, res)
         v = parse(['x', 'basis_list', 'ranks', 'repeats', 'multiplier', 'progress', 'string'], {'repeats': 1, 'multiplier': 10}, args, kwargs)
+        if st is not None:
+            from .contracts_api import check_plain
+            check_plain(self.api, st['plain'])  # the requested ranks are the caller's list: not to be clipped / overwritten in place
+            c.check(self.api, 'data_unchanged', np.array_equal(np.asarray(v['x']), st['x']), [], prop=P)
+            v['ranks'] = st['ranks']  # what was requested at call time
         LAST_HOCUR['exact'] = None
         x, bl = np.asarray(v['x']), v['basis_list']
         m = x.shape[1]
